@@ -245,5 +245,7 @@ def jobs(tier):
     out = [("hussainy", job_hussainy), ("transform3", lambda j: job_transform(j, 3)), ("transform3-descending", lambda j: job_transform(j, 3, True)), ("builder", lambda j: job_builder(j, 45))]
     if tier != "quick":
         out += [("transform4", lambda j: job_transform(j, 4)), ("transform5", lambda j: job_transform(j, 5)),
-                ("builder75", lambda j: job_builder(j, 75))]
+                ("builder75", lambda j: job_builder(j, 75)), ("transform8", lambda j: job_transform(j, 8)),
+                ("transform5-descending", lambda j: job_transform(j, 5, True)), ("builder100", lambda j: job_builder(j, 100)),
+                ("transform16", lambda j: job_transform(j, 16)), ("transform12-descending", lambda j: job_transform(j, 12, True))]
     return out
